@@ -1,12 +1,12 @@
 SPECIFICATION Spec
 CONSTANTS
   Files = {1, 2}
-  Payloads <- PayF8q
+  Payloads <- Pay2f
   Deadlines = {1, 3}
   MinNow = 2
   MaxNow = 3
   MaxSaves = 2
-  MaxPlants = 2
+  MaxPlants = 1
   SS = 2
   HB = 1
   HdrAtomic = TRUE
